@@ -136,14 +136,14 @@ def doAct (cfg : Cfg) (st : String) (n : Nat) (x : Ex) : HAct → Except String 
     if (x.g.threads t).pc == .idle then
       match stepThr cfg x.g t with
       | some g' => pure (settle cfg st n 200 { x with g := g' })
-      | none => throw "outside-domain: start"
-    else throw "outside-domain: start of a started thread"
+      | none => throw "start disabled"
+    else throw "start of a started thread"
   | .release t =>
     if isYield st (x.g.threads t).pc then
       match stepThr cfg x.g t with
       | some g' => pure (settle cfg st n 200 { x with g := g' })
-      | none => throw "outside-domain: release"
-    else throw "outside-domain: release of a thread that is not parked (model)"
+      | none => throw "release disabled"
+    else throw "release of a thread that is not parked in the model"
   | .tick d => pure { x with g := { x.g with now := x.g.now + d } }
   | .gc => pure { x with g := gcStore x.g }
 
@@ -218,15 +218,20 @@ def handleCase (f : List String) : Except String Verdict := do
     let acts ← (if actS == "-" then pure [] else (actS.splitOn ",").mapM (parseAct n cc.st))
     if acts.length > 5000 then throw "outside-domain: too many actions"
     let reqF : Nat → Req := fun t => reqs.getD t { key := 0, max := 0, status := 200, next := true }
-    -- model
-    let mut x : Ex := { g := init reqF cc.t0 }
-    let mut poss : List String := []
-    for a in acts do
-      x ← doAct cc.cfg cc.st n x a
-      poss := positions n x.g :: poss
-    let modelPos := if poss.isEmpty then "-" else ",".intercalate poss.reverse
-    let modelRes := if n == 0 then "-" else ",".intercalate ((List.range n).map fun t => resultOf (x.g.threads t))
-    let modelObs := modelPos ++ "|" ++ modelRes
+    -- model (if the implementation left the modelled behaviour the model cannot follow the actions: that is a
+    -- correspondence failure, not a malformed case — the oracle below is still evaluated)
+    let runModel : Except String String := do
+      let mut x : Ex := { g := init reqF cc.t0 }
+      let mut poss : List String := []
+      for a in acts do
+        x ← doAct cc.cfg cc.st n x a
+        poss := positions n x.g :: poss
+      let modelPos := if poss.isEmpty then "-" else ",".intercalate poss.reverse
+      let modelRes := if n == 0 then "-" else ",".intercalate ((List.range n).map fun t => resultOf (x.g.threads t))
+      pure (modelPos ++ "|" ++ modelRes)
+    let modelObs := match runModel with
+      | .ok s => s
+      | .error e => "model-cannot-follow(" ++ e ++ ")"
     -- implementation observation
     let [implPos, implRes] := impl.splitOn "|" | throw "outside-domain: obs"
     let iposs := if implPos == "-" then [] else implPos.splitOn ","
